@@ -1752,4 +1752,120 @@ theorem closure_multisig_p2sh_secp256k1_built (flags : Nat) (cx : TxCtx) (hr : B
     (aligned_mono (fun sig pk hb => (builtBySecp_facts flags cx _ _ sig pk hb).1) hal)
     (fun s hs => (hf s hs).1)
 
+/-! ### the six wrapped pk / pkh shapes on what the library builds -/
+
+/-- the compressed SEC octets the library writes for the key `q` -/
+abbrev builtKey (q : Int) : Bytes := secpCompressedKey ((EC.ops EC.secp256k1).mul q EC.secp256k1.G)
+
+/-- FindAndDelete's side condition for `<key> CHECKSIG` scripts: a DER element (first byte 0x30) is never the key (02 / 03) -/
+theorem built_sig_ne_key (q : Int) (ht : Nat) (der : Bytes) (h8 : 8 ≤ der.length) (h30 : getB der 0 = 0x30) :
+    der ++ [UInt8.ofNat ht] ≠ builtKey q := by
+  intro e
+  have h0 : getB (der ++ [UInt8.ofNat ht]) 0 = 0x30 := by
+    rw [getB_append_left der _ 0 (by omega)]; exact h30
+  rw [e] at h0
+  rcases secpCompressedKey_head ((EC.ops EC.secp256k1).mul q EC.secp256k1.G) with h2 | h2 <;>
+    · rw [h2] at h0; exact absurd h0 (by decide)
+
+/-- **T1 end to end on secp256k1 (wsh(pk)), on what the library builds**. -/
+theorem closure_wsh_pk_secp256k1_built (vk : Bytes → Bool) (flags : Nat) (cx : TxCtx) (h : Bytes) (ht : Nat)
+    (hht : ht < 256) (hd : 1 ≤ ht % 128 ∧ ht % 128 ≤ 3) {q k r s kid : Int} (hq : 0 < q ∧ q < EC.secp256k1.n)
+    (hl : h.length = 32) (hW : has flags FLAG_WITNESS = true) (hnz : castToBool h = true)
+    (hh : sha256 (p2pk (builtKey q)) = h)
+    (hk : 0 < k ∧ k < EC.secp256k1.n)
+    (hsign : Ecdsa.signRecoverable (EC.ops EC.secp256k1)
+      (Rfc6979.challenge EC.secp256k1.n (engineEcdsaDigest secpCrypto cx (p2pk (builtKey q)) .WITNESS_V0 ht)) q k true = .ok (r, s, kid))
+    (der : Bytes) (hder : Der.serialize r s = .ok der) :
+    ∃ ss wit, finalizedInput vk ⟨some (p2wsh h), [], p2pk (builtKey q), [(builtKey q, der ++ [UInt8.ofNat ht])]⟩ = .ok (ss, wit) ∧
+      verifyScript (envOf secpCrypto flags cx) ss (p2wsh h) wit = .ok () := by
+  obtain ⟨henc, h8, h72, h30⟩ := built_sig_passes_encoding flags ht hht hd hk hsign der hder
+  exact closure_wsh_pk_secp256k1 vk flags cx h _ ht hht hl hW hnz hh (secpCompressedKey_compressed _)
+    (secpParsePub_built q hq) hk hsign der hder (by simp only [Gen.VarInt.MAX_SIZE]; omega) henc
+    (by simp only [List.length_append, List.length_singleton]; omega)
+
+/-- **T1 end to end on secp256k1 (sh(wsh(pk))), on what the library builds**. -/
+theorem closure_sh_wsh_pk_secp256k1_built (vk : Bytes → Bool) (flags : Nat) (cx : TxCtx) (h hr : Bytes) (ht : Nat)
+    (hht : ht < 256) (hd : 1 ≤ ht % 128 ∧ ht % 128 ≤ 3) {q k r s kid : Int} (hq : 0 < q ∧ q < EC.secp256k1.n)
+    (hl : h.length = 32) (hrl : hr.length = 20) (hP : has flags FLAG_P2SH = true)
+    (hW : has flags FLAG_WITNESS = true) (hnz : castToBool h = true)
+    (hhr : ripemd160 (sha256 (p2wsh h)) = hr) (hh : sha256 (p2pk (builtKey q)) = h)
+    (hk : 0 < k ∧ k < EC.secp256k1.n)
+    (hsign : Ecdsa.signRecoverable (EC.ops EC.secp256k1)
+      (Rfc6979.challenge EC.secp256k1.n (engineEcdsaDigest secpCrypto cx (p2pk (builtKey q)) .WITNESS_V0 ht)) q k true = .ok (r, s, kid))
+    (der : Bytes) (hder : Der.serialize r s = .ok der) :
+    ∃ ss wit, finalizedInput vk ⟨some (p2sh hr), p2wsh h, p2pk (builtKey q), [(builtKey q, der ++ [UInt8.ofNat ht])]⟩ = .ok (ss, wit) ∧
+      verifyScript (envOf secpCrypto flags cx) ss (p2sh hr) wit = .ok () := by
+  obtain ⟨henc, h8, h72, h30⟩ := built_sig_passes_encoding flags ht hht hd hk hsign der hder
+  exact closure_sh_wsh_pk_secp256k1 vk flags cx h hr _ ht hht hl hrl hP hW hnz hhr hh (secpCompressedKey_compressed _)
+    (secpParsePub_built q hq) hk hsign der hder (by simp only [Gen.VarInt.MAX_SIZE]; omega) henc
+    (by simp only [List.length_append, List.length_singleton]; omega)
+
+/-- **T1 end to end on secp256k1 (sh(pk); no byte-level hypothesis left besides the hash160 commitment), on what the library builds**. -/
+theorem closure_sh_pk_secp256k1_built (vk : Bytes → Bool) (flags : Nat) (cx : TxCtx) (hr : Bytes) (ht : Nat)
+    (hht : ht < 256) (hd : 1 ≤ ht % 128 ∧ ht % 128 ≤ 3) {q k r s kid : Int} (hq : 0 < q ∧ q < EC.secp256k1.n)
+    (hrl : hr.length = 20) (hP : has flags FLAG_P2SH = true)
+    (hhr : ripemd160 (sha256 (p2pk (builtKey q))) = hr)
+    (hk : 0 < k ∧ k < EC.secp256k1.n)
+    (hsign : Ecdsa.signRecoverable (EC.ops EC.secp256k1)
+      (Rfc6979.challenge EC.secp256k1.n (engineEcdsaDigest secpCrypto cx (p2pk (builtKey q)) .BASE ht)) q k true = .ok (r, s, kid))
+    (der : Bytes) (hder : Der.serialize r s = .ok der) :
+    ∃ ss wit, finalizedInput vk ⟨some (p2sh hr), p2pk (builtKey q), [], [(builtKey q, der ++ [UInt8.ofNat ht])]⟩ = .ok (ss, wit) ∧
+      verifyScript (envOf secpCrypto flags cx) ss (p2sh hr) wit = .ok () := by
+  obtain ⟨henc, h8, h72, h30⟩ := built_sig_passes_encoding flags ht hht hd hk hsign der hder
+  exact closure_sh_pk_secp256k1 vk flags cx hr _ ht hht hrl hP hhr (secpCompressedKey_compressed _)
+    (secpParsePub_built q hq) hk hsign der hder (by simp only [Gen.VarInt.MAX_SIZE]; omega) henc
+    (by simp only [List.length_append, List.length_singleton]; omega)
+    (by simp only [List.length_append, List.length_singleton]; omega) (built_sig_ne_key q ht der h8 h30)
+
+/-- **T1 end to end on secp256k1 (wsh(pkh)), on what the library builds**. -/
+theorem closure_wsh_pkh_secp256k1_built (vk : Bytes → Bool) (flags : Nat) (cx : TxCtx) (h h20 : Bytes) (ht : Nat)
+    (hht : ht < 256) (hd : 1 ≤ ht % 128 ∧ ht % 128 ≤ 3) {q k r s kid : Int} (hq : 0 < q ∧ q < EC.secp256k1.n)
+    (hl : h.length = 32) (hl20 : h20.length = 20) (hW : has flags FLAG_WITNESS = true)
+    (hnz : castToBool h = true) (hh : sha256 (p2pkh h20) = h) (hh20 : ripemd160 (sha256 (builtKey q)) = h20)
+    (hk : 0 < k ∧ k < EC.secp256k1.n)
+    (hsign : Ecdsa.signRecoverable (EC.ops EC.secp256k1)
+      (Rfc6979.challenge EC.secp256k1.n (engineEcdsaDigest secpCrypto cx (p2pkh h20) .WITNESS_V0 ht)) q k true = .ok (r, s, kid))
+    (der : Bytes) (hder : Der.serialize r s = .ok der) :
+    ∃ ss wit, finalizedInput vk ⟨some (p2wsh h), [], p2pkh h20, [(builtKey q, der ++ [UInt8.ofNat ht])]⟩ = .ok (ss, wit) ∧
+      verifyScript (envOf secpCrypto flags cx) ss (p2wsh h) wit = .ok () := by
+  obtain ⟨henc, h8, h72, h30⟩ := built_sig_passes_encoding flags ht hht hd hk hsign der hder
+  exact closure_wsh_pkh_secp256k1 vk flags cx h h20 _ ht hht hl hl20 hW hnz hh hh20 (secpCompressedKey_compressed _)
+    (secpParsePub_built q hq) hk hsign der hder (by simp only [Gen.VarInt.MAX_SIZE]; omega) henc
+    (by simp only [List.length_append, List.length_singleton]; omega)
+
+/-- **T1 end to end on secp256k1 (sh(wsh(pkh))), on what the library builds**. -/
+theorem closure_sh_wsh_pkh_secp256k1_built (vk : Bytes → Bool) (flags : Nat) (cx : TxCtx) (h hr h20 : Bytes) (ht : Nat)
+    (hht : ht < 256) (hd : 1 ≤ ht % 128 ∧ ht % 128 ≤ 3) {q k r s kid : Int} (hq : 0 < q ∧ q < EC.secp256k1.n)
+    (hl : h.length = 32) (hrl : hr.length = 20) (hl20 : h20.length = 20)
+    (hP : has flags FLAG_P2SH = true) (hW : has flags FLAG_WITNESS = true) (hnz : castToBool h = true)
+    (hhr : ripemd160 (sha256 (p2wsh h)) = hr) (hh : sha256 (p2pkh h20) = h) (hh20 : ripemd160 (sha256 (builtKey q)) = h20)
+    (hk : 0 < k ∧ k < EC.secp256k1.n)
+    (hsign : Ecdsa.signRecoverable (EC.ops EC.secp256k1)
+      (Rfc6979.challenge EC.secp256k1.n (engineEcdsaDigest secpCrypto cx (p2pkh h20) .WITNESS_V0 ht)) q k true = .ok (r, s, kid))
+    (der : Bytes) (hder : Der.serialize r s = .ok der) :
+    ∃ ss wit, finalizedInput vk ⟨some (p2sh hr), p2wsh h, p2pkh h20, [(builtKey q, der ++ [UInt8.ofNat ht])]⟩ = .ok (ss, wit) ∧
+      verifyScript (envOf secpCrypto flags cx) ss (p2sh hr) wit = .ok () := by
+  obtain ⟨henc, h8, h72, h30⟩ := built_sig_passes_encoding flags ht hht hd hk hsign der hder
+  exact closure_sh_wsh_pkh_secp256k1 vk flags cx h hr h20 _ ht hht hl hrl hl20 hP hW hnz hhr hh hh20 (secpCompressedKey_compressed _)
+    (secpParsePub_built q hq) hk hsign der hder (by simp only [Gen.VarInt.MAX_SIZE]; omega) henc
+    (by simp only [List.length_append, List.length_singleton]; omega)
+
+/-- **T1 end to end on secp256k1 (sh(pkh); `hne` (element ≠ the 20-byte hash) stays), on what the library builds**. -/
+theorem closure_sh_pkh_secp256k1_built (vk : Bytes → Bool) (flags : Nat) (cx : TxCtx) (hr h20 : Bytes) (ht : Nat)
+    (hht : ht < 256) (hd : 1 ≤ ht % 128 ∧ ht % 128 ≤ 3) {q k r s kid : Int} (hq : 0 < q ∧ q < EC.secp256k1.n)
+    (hrl : hr.length = 20) (hl20 : h20.length = 20) (hP : has flags FLAG_P2SH = true)
+    (hhr : ripemd160 (sha256 (p2pkh h20)) = hr) (hh20 : ripemd160 (sha256 (builtKey q)) = h20)
+    (hk : 0 < k ∧ k < EC.secp256k1.n)
+    (hsign : Ecdsa.signRecoverable (EC.ops EC.secp256k1)
+      (Rfc6979.challenge EC.secp256k1.n (engineEcdsaDigest secpCrypto cx (p2pkh h20) .BASE ht)) q k true = .ok (r, s, kid))
+    (der : Bytes) (hder : Der.serialize r s = .ok der)
+    (hne : der ++ [UInt8.ofNat ht] ≠ h20) :
+    ∃ ss wit, finalizedInput vk ⟨some (p2sh hr), p2pkh h20, [], [(builtKey q, der ++ [UInt8.ofNat ht])]⟩ = .ok (ss, wit) ∧
+      verifyScript (envOf secpCrypto flags cx) ss (p2sh hr) wit = .ok () := by
+  obtain ⟨henc, h8, h72, h30⟩ := built_sig_passes_encoding flags ht hht hd hk hsign der hder
+  exact closure_sh_pkh_secp256k1 vk flags cx hr h20 _ ht hht hrl hl20 hP hhr hh20 (secpCompressedKey_compressed _)
+    (secpParsePub_built q hq) hk hsign der hder (by simp only [Gen.VarInt.MAX_SIZE]; omega) henc
+    (by simp only [List.length_append, List.length_singleton]; omega)
+    (by simp only [List.length_append, List.length_singleton]; omega) hne
+
 end Props.C10
